@@ -155,6 +155,17 @@ class SymEx:
         self.region_fid = fid
         return outs
 
+    def run_from(self, body, bb, st, fid, stop_blocks):
+        """Continue executing `body` at block bb in an existing state/frame until a block of stop_blocks or a return."""
+        outs = []
+        old = self.stop_blocks
+        self.stop_blocks = set(stop_blocks)
+        try:
+            self._exec(body, fid, bb, st, 0, outs, {}, first=True)
+        finally:
+            self.stop_blocks = old
+        return outs
+
     def loopfree(self, body):
         k = body.path
         if k not in self._loopfree:
@@ -287,8 +298,30 @@ class SymEx:
     # ---------------------------------------------------------------- operands
     def operand(self, st, fid, op):
         if op.get('k') == 'const':
+            if 'promoted' in op and 'uneval' in op:
+                v = self.promoted(st, op)
+                if v is not None:
+                    return v
             return self.constant(op)
         return self.read_place(st, fid, op)
+
+    def promoted(self, st, c):
+        """Value of a promoted constant: evaluate its (straight-line) initialiser exported with the owning body."""
+        owner = self.f.body(c['uneval']) or self.f.helpers.get(self.f.norm(c['uneval']))
+        if owner is None:
+            return None
+        for pr in owner.raw.get('promoted') or []:
+            if pr.get('index') == c['promoted']:
+                from .facts import Body
+                raw = {'path': '%s::promoted[%d]' % (owner.path, c['promoted']), 'blocks': pr['blocks'], 'locals': pr['locals'],
+                       'arg_count': 0, 'span': owner.raw['span']}
+                pb = Body(raw, owner.crate_kind)
+                if any(bb['term']['t'] == 'switch' for bb in pb.blocks):
+                    return None
+                outs = self.run(pb, [], st=st)
+                if len(outs) == 1:
+                    return outs[0].ret
+        return None
 
     def constant(self, c):
         if 'int' in c:
@@ -642,6 +675,24 @@ class SymEx:
         last = name.rsplit('::', 1)[-1]
         is_opt = 'option::Option::<T>::' in name
         is_bool = '<impl bool>::' in name
+        if last == 'contains' and ('ops::RangeInclusive::<Idx>::' in name or 'ops::Range::<Idx>::' in name) and len(args) == 2:
+            # lo <= x && x <= hi  (x < hi for the half-open range), evaluated left to right like the source `&&`
+            rg, x = args[0], args[1]
+            for _ in range(3):
+                if rg[0] == 'ref':
+                    rg = self.load(st, rg)
+                if x[0] == 'ref':
+                    x = self.load(st, x)
+            lo, hi = self.field(st, rg, 'start', 0), self.field(st, rg, 'end', 1)
+            upper = 'Le' if 'RangeInclusive' in name else 'Lt'
+            out = []
+            for s2, b1 in self.bool_cases(st, self.binop('Le', lo, x)):
+                if not b1:
+                    out.append((s2, ('bool', False)))
+                    continue
+                for s3, b2 in self.bool_cases(s2, self.binop(upper, x, hi)):
+                    out.append((s3, ('bool', b2)))
+            return out
         if not (is_opt or is_bool):
             return None
         out = []
@@ -745,6 +796,8 @@ class SymEx:
             return self.binop(last.capitalize(), val(0), val(1))
         if name.endswith('PartialOrd for f64>::partial_cmp') or name.endswith('PartialEq for f64>::eq'):
             return APP(last, val(0), val(1))
+        if name.endswith('ops::RangeInclusive::<Idx>::new') and len(args) == 2:
+            return STRUCT('RangeInclusive', None, [('start', val(0)), ('end', val(1))])
         if 'nalgebra' in name or 'Point' in name:
             r = self.model_nalgebra(st, name, last, args, val)
             if r is not None:
